@@ -147,6 +147,39 @@ def run(ctx):
                 ctx.violation(dict(key2, clause=clause), "%s: %s" % (shape, msg), {"par": p, "dirs": order})
         else:
             ctx.replayed()
+    # ---- the numpy twins of the shape functions (model functions of fit_jonswap / fit_gaussian): scaled = unscaled * h^2 / Hs^2
+    # under the twin's own measure (trapezoid + tail above 0.333 Hz), same shape as the constructor, gaussian identical
+    from wavespectra.core import npstats
+    from wavespectra.construct.frequency import jonswap as cj, gaussian as cg
+    for fmax in (0.3, 0.33, 0.4, 0.5, 1.0):
+        for nf in (12, 25, 40):
+            freq = np.linspace(0.04, fmax, nf)
+            for fp in (0.08, 0.15, 0.25, 0.3):
+                for hs, gamma in ((0.5, 1.0), (2.0, 2.0), (7.5, 3.3)):
+                    if fp >= fmax:
+                        continue
+                    ctx.case(("twin", fmax, nf, fp, hs, gamma), True)
+                    tw = npstats.jonswap(freq, fp, hs, gamma)
+                    un = npstats.jonswap(freq, fp, None, gamma)
+                    shape = np.asarray(cj(freq=freq, fp=fp, gamma=gamma, hs=None).values, float)
+                    probs = []
+                    if not np.isclose(float(npstats.hs(tw, freq)), hs, rtol=1e-9):
+                        probs.append(("twin-hs", "npstats.jonswap(hs=%g) measures %.9g with npstats.hs" % (hs, float(npstats.hs(tw, freq)))))
+                    if not np.allclose(tw * float(npstats.hs(un, freq)) ** 2, un * hs ** 2, rtol=1e-9):
+                        probs.append(("twin-scaling", "scaled twin is not unscaled * h^2 / Hs^2"))
+                    if not np.allclose(un, shape, rtol=1e-9, atol=1e-300):
+                        probs.append(("twin-shape", "unscaled twin differs from construct.frequency.jonswap"))
+                    gw = 0.02
+                    # the constructor rescales its discretised Gaussian to the requested height, the twin is the analytic one: same shape
+                    ga, gb = npstats.gaussian(freq, fp, hs, gw), np.asarray(cg(freq=freq, fp=fp, hs=hs, gw=gw).values, float)
+                    big = gb > 1e-12 * gb.max()
+                    if not np.allclose(ga[big] / gb[big], (ga[big] / gb[big])[0], rtol=1e-9):
+                        probs.append(("twin-gaussian", "npstats.gaussian is not proportional to construct.frequency.gaussian"))
+                    if probs:
+                        for clause, msg in probs:
+                            ctx.violation({"shape": "jonswap-twin", "clause": clause, "tail": bool(fmax > 0.333)}, msg, {"fmax": fmax, "nf": nf, "fp": fp, "hs": hs, "gamma": gamma})
+                    else:
+                        ctx.replayed()
     if params:
         ctx.sample({"kind": "parameter case <<shape, hs*10, fp*100, gamma*10, ndir, dm*10, dspr, depth, extra-dim>>", "par": params[0]})
     ctx.assume("exactness of measured dm / dspr is demanded for integer spreading exponents s with s + 1 < n (uniform quadrature is exact for that "
